@@ -208,21 +208,7 @@ def deep_chains(ctx):
     return outs
 
 
-def gen_tod_calendar(rng):
-    """a calendar whose validity begins / ends at a TIME OF DAY (outside the scheduler model, whose capacity is a
-    function of the day): joins Monday 12:00, leaves Friday 15:30, ..."""
-    I = lambda v: ['i', v]
-    tod = lambda: rng.choice([6, 9, 12, 15, 18]) * sc.H + rng.choice([0, 0, 30 * 60_000_000])
-    st = sc.day_us(rng.randint(-6, 12), tod()) if rng.random() < 0.8 else None
-    en = sc.day_us(rng.randint(13, 50), tod()) if rng.random() < 0.6 or st is None else None
-    inner = rng.choice([sc.wk([0, 1, 2, 3, 4], I(8), st, en), sc.wk([0, 1, 2, 3, 4, 5, 6], I(rng.choice([4, 8])), st, en),
-                        ['fixed', I(rng.choice([2, 8])), st, en]])
-    r = rng.random()
-    if r < 0.5:
-        return inner
-    if r < 0.8:
-        return ['binc', 'or', inner, sc.wk([1, 3], I(2))]
-    return ['binc', 'add', inner, sc.wk([0, 2, 4], I(4))]
+gen_tod_calendar = sc.gen_tod_calendar
 
 
 def robustness_stream(ctx):
@@ -274,7 +260,16 @@ def run(ctx):
         if oc == 20:
             ctx_.failure('C14/%s/timeout' % case['dir'], 'calc did not terminate within the 60 s alarm (%s scheduler)' % case['dir'], desc)
         label = 'returned' if oc == 0 else 'runtime_error' if oc == 1 else 'timeout' if oc == 20 else 'crash'
-        for cls in classes_of(case, out):
+        cls_here = classes_of(case, out)
+        if oc == 0 and not (code & sc.BITS['illformed']):
+            # "RuntimeError is the outcome for inputs that cannot be scheduled": the class is recomputed from the abstract
+            # input (theorems C14_err_isolated / _future_end / _no_capacity_any / _cycle say the model answers Err)
+            for cls in cls_here:
+                if cls in CLASSES:
+                    ctx_.failure('C14/%s/unschedulable-input-returned-a-schedule' % case['dir'],
+                                 'calc returned a schedule for an input of the class %s (RuntimeError is the documented outcome)' % cls, desc)
+                    break
+        for cls in cls_here:
             s = stats.setdefault(cls, {'cases': 0, 'fwd': 0, 'bwd': 0, 'returned': 0, 'runtime_error': 0, 'crash': 0, 'timeout': 0})
             s['cases'] += 1
             s[case['dir']] += 1
